@@ -14,13 +14,14 @@ import types
 
 from harness import vlib
 
-FIELD = "type"
+FIELDS = ["type", "kind", "shape"]     # discriminator key names; id = position
+FIELD = FIELDS[0]
 N_ENUM = 64          # members of the StrEnum used for enum-styled tags
 
 PREAMBLE = """
 from dataclasses import dataclass, field
 from enum import IntEnum, StrEnum
-from typing import Annotated, Any, ClassVar, Final, List, Literal, Optional, Union
+from typing import Annotated, Any, ClassVar, Dict, Final, List, Literal, Optional, Tuple, Union
 from mashumaro import DataClassDictMixin
 from mashumaro.config import ADD_DIALECT_SUPPORT, BaseConfig
 from mashumaro.dialect import Dialect
@@ -113,7 +114,7 @@ class Hist:
     kind: str                 # "field" | "nofield"
     style: str
     sites: list               # dicts: wiring, bases, sub, sup, field, tagger, config, name
-    ops: list                 # model ops: ("define", parents, own_tag|None, ttags, own_req) | ("decode", site, tag|None, present)
+    ops: list                 # model ops: ("define", parents, {key id: tag}, ttags, own_req) | ("decode", site, {key id: tag}, present)
     script: list              # executable steps (JSON-able), see run_script
     op_of_step: list          # for every script step: index into ops or None
     meta: dict
@@ -125,7 +126,7 @@ DECLS = ["field", "classvar", "plain", "literal", "final"]
 def disc_src(s: dict) -> str:
     args = []
     if s["field"]:
-        args.append(f"field={FIELD!r}")
+        args.append(f"field={FIELDS[s.get('fid', 0)]!r}")
     if s["sub"]:
         args.append("include_subtypes=True")
     if s["sup"]:
@@ -143,21 +144,22 @@ def class_src(c: dict, style: str, kind: str) -> str:
     lines = ["@dataclass", f"class C{c['id']}({bases}):" if bases else f"class C{c['id']}:"]
     body = []
     if kind == "field":
-        if c["own_tag"] is not None:
-            v, t = tag_src(style, c["own_tag"], True, c.get("own_j", 0))
+        for fid, tg in sorted(c["own_tags"].items()):
+            v, t = tag_src(style, tg, True, c.get("own_js", {}).get(fid, 0))
             d = c["decl"]
+            fname = FIELDS[fid]
             if style.startswith("spectrum:") and d in ("field", "final", "classvar"):
                 t = "Any"             # the spellings of one tag have different types
             if d == "field":
-                body.append(f"{FIELD}: {t} = {v}")
+                body.append(f"{fname}: {t} = {v}")
             elif d == "classvar":
-                body.append(f"{FIELD}: ClassVar[{t}] = {v}")
+                body.append(f"{fname}: ClassVar[{t}] = {v}")
             elif d == "plain":
-                body.append(f"{FIELD} = {v}")
+                body.append(f"{fname} = {v}")
             elif d == "literal":
-                body.append(f"{FIELD}: Literal[{v}] = {v}")
+                body.append(f"{fname}: Literal[{v}] = {v}")
             else:
-                body.append(f"{FIELD}: Final[{t}] = {v}")
+                body.append(f"{fname}: Final[{t}] = {v}")
         if not c["parents"]:
             body.append("x: int = 0")
         for f in c["own_req"]:
@@ -182,20 +184,42 @@ def class_src(c: dict, style: str, kind: str) -> str:
     return src
 
 
+# Where the Discriminator annotation sits relative to containers (holder field type or codec type):
+# name -> (type template over T = base type and D = discriminator source, wrap input, unwrap result).
+# "inner" shapes annotate the class itself and wrap the Annotated type; "outer" shapes (a_*) attach the Discriminator
+# to the container, the metadata has to travel down to the dataclass (single base only: Optional[Union[..]] flattens).
+SHAPES = {
+    "plain": ("Annotated[{T}, {D}]", lambda i: i, lambda r: r),
+    "list": ("List[Annotated[{T}, {D}]]", lambda i: [i], lambda r: r[0]),
+    "opt": ("Optional[Annotated[{T}, {D}]]", lambda i: i, lambda r: r),
+    "dict": ("Dict[str, Annotated[{T}, {D}]]", lambda i: {"k": i}, lambda r: r["k"]),
+    "vtuple": ("Tuple[Annotated[{T}, {D}], ...]", lambda i: [i], lambda r: r[0]),
+    "tuple2": ("Tuple[int, Annotated[{T}, {D}]]", lambda i: [1, i], lambda r: r[1]),
+    "a_opt": ("Annotated[Optional[{T}], {D}]", lambda i: i, lambda r: r),
+    "a_list": ("Annotated[List[{T}], {D}]", lambda i: [i], lambda r: r[0]),
+    "a_dict": ("Annotated[Dict[str, {T}], {D}]", lambda i: {"k": i}, lambda r: r["k"]),
+    "a_listopt": ("Annotated[List[Optional[{T}]], {D}]", lambda i: [i], lambda r: r[0]),
+}
+INNER_SHAPES = ["plain", "plain", "plain", "list", "opt", "dict", "vtuple", "tuple2"]
+OUTER_SHAPES = ["a_opt", "a_list", "a_dict", "a_listopt"]
+
+
 def site_type_src(s: dict) -> str:
     bs = [f"C{b}" for b in s["bases"]]
     t = bs[0] if len(bs) == 1 else "Union[" + ", ".join(bs) + "]"
-    return f"Annotated[{t}, {disc_src(s)}]"
+    return SHAPES[s.get("shape", "plain")][0].format(T=t, D=disc_src(s))
 
 
 def site_create_src(s: dict) -> str:
-    w = s["wiring"]
-    if w == "codec":
+    if s["wiring"] == "codec":
         return f"{s['name']} = BasicDecoder({site_type_src(s)})\n"
-    ann = site_type_src(s)
-    if w == "holder_list":
-        ann = f"List[{ann}]"
-    return f"@dataclass\nclass {s['name']}(DataClassDictMixin):\n    v: {ann}\n"
+    return f"@dataclass\nclass {s['name']}(DataClassDictMixin):\n    v: {site_type_src(s)}\n"
+
+
+def decode_step(s: dict, inp: dict) -> dict:
+    call = f"{s['name']}.decode" if s["wiring"] == "codec" else f"{s['name']}.from_dict"
+    return {"op": "decode", "call": call, "holder": s["wiring"] == "holder",
+            "shape": None if s["wiring"] == "config" else s.get("shape", "plain"), "input": inp}
 
 
 def mro_ok(mirror: list, parents: list) -> bool:
@@ -231,6 +255,11 @@ def gen_history(rng, stream: str = "main", max_ops: int = 40) -> Hist:
     decls = ["classvar", "plain"] if nonfield else (["field", "literal"] if spectrum else ["field", "literal", "final"])
     # a Literal/typed `type` field validates the spelling it gets: only histories whose classes declare the tag as a
     # non-field attribute (or use the tagger) mix the ==-equal spellings of one tag (False/0/0.0/IE.Z0, ''/SE.EMPTY ...)
+    # discriminator key names in use: dispatchers of one hierarchy may look at different keys (an outer one at "type",
+    # a nested one at "kind"); a class can carry a tag per key name.  A field-declared tag would validate the other
+    # key's value when both keys are in the input -> two key names only with non-field declarations
+    n_keys = 2 if (kind == "field" and nonfield and rng.random() < 0.45) else 1
+    key_ids = rng.sample(range(len(FIELDS)), n_keys) if kind == "field" else [0]
     free_spelling = spectrum and nonfield
     length = rng.randint(6, max_ops)
     classes: list[dict] = []
@@ -263,22 +292,23 @@ def gen_history(rng, stream: str = "main", max_ops: int = 40) -> Hist:
             else:
                 r = rng.random()
                 if r < 0.45:
-                    config = {"field": kind == "field", "sub": True, "sup": rng.random() < 0.3,
+                    config = {"field": kind == "field", "sub": True, "sup": rng.random() < 0.3, "fid": rng.choice(key_ids),
                               "tagger": use_tagger and rng.random() < 0.6, "dialects": use_dialects}
                 elif r < 0.7:
                     plain = True
         else:
             plain = classes[parents[0]]["plain"]
             # a non-root class that declares its own class-level discriminator: a dispatcher below a dispatcher
-            if not plain and stream != "kf" and rng.random() < 0.06:
-                config = {"field": kind == "field", "sub": True, "sup": rng.random() < 0.3,
+            if not plain and stream != "kf" and rng.random() < (0.12 if n_keys == 2 else 0.06):
+                config = {"field": kind == "field", "sub": True, "sup": rng.random() < 0.3, "fid": rng.choice(key_ids),
                           "tagger": use_tagger and rng.random() < 0.6, "dialects": use_dialects}
-        own_tag = None
+        own_tags: dict = {}
         ttags = None
         own_req: list[int] = []
         if kind == "field":
-            if rng.random() < 0.75:
-                own_tag = fresh_tag()
+            for fid in key_ids:
+                if rng.random() < 0.75:
+                    own_tags[fid] = fresh_tag()
             n = rng.choice([0, 1, 1, 1, 2, 3]) if rng.random() < 0.9 else 0
             ttags = [fresh_tag() for _ in range(n)]
             if rng.random() < 0.3:
@@ -289,15 +319,15 @@ def gen_history(rng, stream: str = "main", max_ops: int = 40) -> Hist:
             for _ in range(n):
                 own_req.append(next_field[0])
                 next_field[0] += 1
-        own_j = rng.randrange(8) if free_spelling else 0
+        own_js = {fid: (rng.randrange(8) if free_spelling else 0) for fid in own_tags}
         ttag_js = [rng.randrange(8) if free_spelling else 0 for _ in (ttags or [])]
-        c = {"id": cid, "parents": parents, "own_tag": own_tag, "ttags": ttags, "ttag_bare": rng.random() < 0.5,
-             "own_j": own_j, "ttag_js": ttag_js,
+        c = {"id": cid, "parents": parents, "own_tags": own_tags, "ttags": ttags, "ttag_bare": rng.random() < 0.5,
+             "own_js": own_js, "ttag_js": ttag_js,
              "own_req": own_req, "decl": rng.choice(decls), "plain": plain, "config": config}
         classes.append(c)
         mirror.append(type(f"M{cid}", tuple(mirror[p] for p in parents), {}))
         root_of.append(cid if root else root_of[parents[0]])
-        ops.append(("define", list(parents), own_tag, list(ttags or []), list(own_req)))
+        ops.append(("define", list(parents), dict(own_tags), list(ttags or []), list(own_req)))
         script.append({"op": "exec", "src": class_src(c, style, kind)})
         op_of_step.append(len(ops) - 1)
         if config is not None:
@@ -318,10 +348,7 @@ def gen_history(rng, stream: str = "main", max_ops: int = 40) -> Hist:
 
     def new_site():
         nonlocal other_sites
-        if stream == "kf":
-            wiring = rng.choice(["holder", "holder_list"])
-        else:
-            wiring = rng.choice(["holder", "holder", "holder_list", "codec", "codec"])
+        wiring = "holder" if stream == "kf" else rng.choice(["holder", "holder", "holder", "codec", "codec"])
         b = rng.randrange(len(classes)) if rng.random() < 0.5 else rng.choice([c["id"] for c in classes if not c["parents"]])
         bases = [b]
         if rng.random() < 0.2 and len(classes) >= 2:
@@ -335,8 +362,11 @@ def gen_history(rng, stream: str = "main", max_ops: int = 40) -> Hist:
         # (X2) known finding nofield-inherited-unpacker: no-field mode through a nailed holder over plain dataclasses
         if stream != "kf" and kind == "nofield" and wiring != "codec" and any(classes[x]["plain"] for x in bases):
             wiring = "codec"
-        s = {"wiring": wiring, "bases": bases, "sub": sub, "sup": sup, "field": kind == "field",
-             "tagger": use_tagger and rng.random() < 0.6, "config": False,
+        shape = rng.choice(INNER_SHAPES)
+        if len(bases) == 1 and rng.random() < 0.35:
+            shape = rng.choice(OUTER_SHAPES)
+        s = {"wiring": wiring, "bases": bases, "sub": sub, "sup": sup, "field": kind == "field", "fid": rng.choice(key_ids),
+             "tagger": use_tagger and rng.random() < 0.6, "config": False, "shape": shape,
              "name": ("DEC" if wiring == "codec" else "H") + str(len(sites))}
         sites.append(s)
         other_sites += 1
@@ -360,8 +390,8 @@ def gen_history(rng, stream: str = "main", max_ops: int = 40) -> Hist:
                     continue
                 if s["tagger"]:
                     pool.extend(c["ttags"] or [])
-                elif c["own_tag"] is not None:
-                    pool.append(c["own_tag"])
+                elif s["fid"] in c["own_tags"]:
+                    pool.append(c["own_tags"][s["fid"]])
             if r < 0.08:
                 t = None
             elif r < 0.72 and pool:
@@ -371,13 +401,20 @@ def gen_history(rng, stream: str = "main", max_ops: int = 40) -> Hist:
             else:
                 t = rng.randrange(0, max(1, next_tag[0] + 2))
             t = None if t is None else min(t, N_ENUM - 1)
+            keys: dict = {}
             if t is not None:
-                inp[FIELD] = tag_value(style, t, rng.randrange(8) if free_spelling else 0)   # key present, whatever the value
+                keys[s["fid"]] = t
+            for fid in key_ids:          # the other key name: present (tag of some class / anything) or absent
+                if fid != s["fid"] and rng.random() < 0.6:
+                    other = [c["own_tags"][fid] for c in classes if fid in c["own_tags"]] + [x for c in classes for x in (c["ttags"] or [])]
+                    keys[fid] = min(rng.choice(other) if other and rng.random() < 0.8 else rng.randrange(0, next_tag[0] + 3), N_ENUM - 1)
+            for fid, tg in keys.items():
+                inp[FIELDS[fid]] = tag_value(style, tg, rng.randrange(8) if free_spelling else 0)   # key present, whatever the value
             if rng.random() < 0.5:
                 inp["x"] = rng.randrange(0, 9)
             present: list[int] = []
         else:
-            t = None
+            keys = {}
             fam = {root_of[b] for b in s["bases"]}
             famc = [c for c in classes if root_of[c["id"]] in fam]
             elig = gen_eligible(s)
@@ -392,10 +429,8 @@ def gen_history(rng, stream: str = "main", max_ops: int = 40) -> Hist:
                 present = sorted(set(present + [rng.randrange(next_field[0])]))
             for f in present:
                 inp[f"f{f}"] = f
-        ops.append(("decode", si, t, present))
-        wrap = {"config": None, "codec": None, "holder": "v", "holder_list": "vlist"}[s["wiring"]]
-        call = f"{s['name']}.decode" if s["wiring"] == "codec" else f"{s['name']}.from_dict"
-        step = {"op": "decode", "call": call, "wrap": wrap, "input": inp}
+        ops.append(("decode", si, dict(keys), present))
+        step = decode_step(s, inp)
         if s["wiring"] == "config" and s.get("dialects"):
             d = rng.choice([None, "D1", "D2"])
             if d:
@@ -440,7 +475,7 @@ def gen_history(rng, stream: str = "main", max_ops: int = 40) -> Hist:
             decode()
         else:
             new_site()
-    meta = {"kind": kind, "style": style, "unique": unique, "classes": classes, "stream": stream}
+    meta = {"kind": kind, "style": style, "unique": unique, "classes": classes, "stream": stream, "n_keys": n_keys}
     return Hist(kind, style, sites, ops, script, op_of_step, meta)
 
 
@@ -492,20 +527,18 @@ def do_decode(ns: dict, step: dict):
         except Exception as e:  # noqa: BLE001 - classified below
             return (unwrap_exc(e),)
         return ("inst", type(getattr(r, step["pick"])).__name__)
-    if step["wrap"] == "v":
-        arg = {"v": inp}
-    elif step["wrap"] == "vlist":
-        arg = {"v": [inp]}
-    else:
-        arg = inp
+    shape = SHAPES[step["shape"]] if step.get("shape") else None
+    arg = shape[1](inp) if shape else inp
+    if step.get("holder"):
+        arg = {"v": arg}
     try:
         r = fn(arg, dialect=ns[step["dialect"]]) if step.get("dialect") else fn(arg)
+        if step.get("holder"):
+            r = r.v
+        if shape:
+            r = shape[2](r)
     except Exception as e:  # noqa: BLE001 - classified below
         return (unwrap_exc(e),)
-    if step["wrap"] == "v":
-        r = r.v
-    elif step["wrap"] == "vlist":
-        r = r.v[0] if isinstance(r.v, list) and len(r.v) == 1 else r.v
     return ("inst", type(r).__name__)
 
 
@@ -528,7 +561,8 @@ def spec_own_tags(ns: dict, c, s: dict) -> list:
     if s["tagger"]:
         v = ns["TAGS"].get(c.__name__, [])
         return v if type(v) is list else [v]
-    return [c.__dict__[FIELD]] if FIELD in c.__dict__ else []
+    fname = FIELDS[s.get("fid", 0)]
+    return [c.__dict__[fname]] if fname in c.__dict__ else []
 
 
 def has_cfg(c) -> bool:
@@ -539,14 +573,25 @@ def has_cfg(c) -> bool:
 
 def spec_field(ns: dict, n_classes: int, s: dict, inp: dict):
     """-> (expected outcome | None when the property is silent, uniqueness flag | None)"""
-    if FIELD not in inp:
+    fname = FIELDS[s.get("fid", 0)]
+    if fname not in inp:             # key absent (a key present with a falsy value or None is present)
         return ("missing",), None
-    t = inp[FIELD]
+    t = inp[fname]
     car = [c for c in spec_eligible(ns, n_classes, s) if any(t == v for v in spec_own_tags(ns, c, s))]
     if len(car) == 1:
-        if has_cfg(car[0]):          # (X1) = hypothesis plain_carriers of C12_registry: the property is silent
-            return None, True
-        return ("inst", car[0].__name__), True
+        c = car[0]
+        if has_cfg(c):
+            # the selected class is itself a discriminated base "via Config": its from_dict is again a decode event of
+            # the property, with the class's own settings (read from the real class) on the same input.  For the same key
+            # this yields the documented SuitableVariantNotFound (a class-level discriminator never produces its own
+            # class); for another key an absent inner key must surface as MissingDiscriminatorError.
+            d = c.__dict__["Config"].discriminator
+            if d.field is None or d.field not in FIELDS:
+                return None, True
+            inner = {"bases": [int(c.__name__[1:])], "sub": True, "sup": False, "config": True, "field": True,
+                     "tagger": d.variant_tagger_fn is not None, "fid": FIELDS.index(d.field)}
+            return spec_field(ns, n_classes, inner, inp)[0], True
+        return ("inst", c.__name__), True
     if not car:
         return ("notfound",), True
     return None, False
@@ -632,7 +677,7 @@ def run_history(h: Hist):
                 why, acc_sub, acc_sup = spec_nofield_check(ns, n_classes, s, step["input"], obs)
                 if why is not None:
                     should = acc_sub if acc_sub else acc_sup
-                    kf = (s["wiring"] in ("holder", "holder_list") and obs[0] in ("inst", "notfound") and bool(should)
+                    kf = (s["wiring"] == "holder" and obs[0] in ("inst", "notfound") and bool(should)
                           and all(c.__name__ in shadow for c in should))
                     sig = {"kind": "nofield-inherited-unpacker" if kf else "nofield-dispatch", "wiring": s["wiring"]}
                     fails.append((k, f"{step['call']}({step['input']}) -> {fmt(obs)}: {why}",
@@ -668,18 +713,22 @@ def coq_nats(l) -> str:
     return "[" + "; ".join(str(int(x)) for x in l) + "]"
 
 
+def coq_pairs(d: dict) -> str:
+    return "[" + "; ".join(f"({int(k)}, {int(v)})" for k, v in sorted(d.items())) + "]"
+
+
 def coq_site(s: dict) -> str:
     b = vlib.coq_bool
     return (f"Site {coq_nats(s['bases'])} {b(s['sub'])} {b(s['sup'])} {b(s['field'])} {b(s['tagger'])} {b(s['config'])} "
-            f"{b(s['wiring'] == 'codec')}")
+            f"{b(s['wiring'] == 'codec')} {int(s.get('fid', 0))}")
 
 
 def coq_op(op) -> str:
     if op[0] == "define":
         _, ps, tg, tt, rq = op
-        return f"Define {coq_nats(ps)} {coq_nats([] if tg is None else [tg])} {coq_nats(tt)} {coq_nats(rq)}"
-    _, si, t, present = op
-    return f"Decode {si} {'None' if t is None else '(Some %d)' % t} {coq_nats(present)}"
+        return f"Define {coq_nats(ps)} {coq_pairs(tg)} {coq_nats(tt)} {coq_nats(rq)}"
+    _, si, keys, present = op
+    return f"Decode {si} {coq_pairs(keys)} {coq_nats(present)}"
 
 
 def coq_outcome(o) -> str:
@@ -720,25 +769,30 @@ def build_fixed(kind: str, style: str, classes_spec: list, sites_spec: list, eve
     for ev in events:
         if ev[0] == "define":
             spec = dict(classes_spec[ev[1]])
-            c = {"id": len(classes), "parents": spec.get("parents", []), "own_tag": spec.get("own_tag"),
+            own_tags = dict(spec.get("own_tags") or ({0: spec["own_tag"]} if spec.get("own_tag") is not None else {}))
+            c = {"id": len(classes), "parents": spec.get("parents", []), "own_tags": own_tags,
                  "ttags": spec.get("ttags", [] if kind == "field" else None), "ttag_bare": spec.get("bare", False),
-                 "own_j": spec.get("own_j", 0), "ttag_js": spec.get("ttag_js"),
+                 "own_js": {fid: spec.get("own_j", 0) for fid in own_tags}, "ttag_js": spec.get("ttag_js"),
                  "own_req": spec.get("own_req", []), "decl": spec.get("decl", "field"), "plain": spec.get("plain", False),
                  "config": spec.get("config")}
             classes.append(c)
-            ops.append(("define", list(c["parents"]), c["own_tag"], list(c["ttags"] or []), list(c["own_req"])))
+            ops.append(("define", list(c["parents"]), dict(own_tags), list(c["ttags"] or []), list(c["own_req"])))
             script.append({"op": "exec", "src": class_src(c, style, kind)})
             op_of_step.append(len(ops) - 1)
             if c["config"] is not None:
                 s = dict(c["config"])
+                s.setdefault("fid", 0)
                 s.update({"wiring": "config", "bases": [c["id"]], "config": True, "name": f"C{c['id']}"})
                 site_index[("config", c["id"])] = len(sites)
                 sites.append(s)
         elif ev[0] == "site":
             spec = dict(sites_spec[ev[1]])
-            s = {"wiring": spec["wiring"], "bases": spec["bases"], "sub": spec.get("sub", True), "sup": spec.get("sup", False),
-                 "field": kind == "field", "tagger": spec.get("tagger", False), "config": False,
-                 "name": ("DEC" if spec["wiring"] == "codec" else "H") + str(len(sites))}
+            wiring, shape = spec["wiring"], spec.get("shape", "plain")
+            if wiring == "holder_list":
+                wiring, shape = "holder", "list"
+            s = {"wiring": wiring, "bases": spec["bases"], "sub": spec.get("sub", True), "sup": spec.get("sup", False),
+                 "field": kind == "field", "tagger": spec.get("tagger", False), "config": False, "fid": spec.get("fid", 0),
+                 "shape": shape, "name": ("DEC" if wiring == "codec" else "H") + str(len(sites))}
             site_index[("site", ev[1])] = len(sites)
             sites.append(s)
             script.append({"op": "exec", "src": site_create_src(s)})
@@ -749,16 +803,19 @@ def build_fixed(kind: str, style: str, classes_spec: list, sites_spec: list, eve
             si = site_index[skey]
             s = sites[si]
             inp = {}
+            keys = {}
             if kind == "field":
                 if t is not None:
-                    inp[FIELD] = tag_value(style, t, j)
+                    keys[s.get("fid", 0)] = t
+                if len(ev) > 5:                      # further keys {key id: tag}
+                    keys.update(ev[5])
+                for fid, tg in keys.items():
+                    inp[FIELDS[fid]] = tag_value(style, tg, j)
             else:
                 for f in present:
                     inp[f"f{f}"] = f
-            ops.append(("decode", si, t, list(present)))
-            wrap = {"config": None, "codec": None, "holder": "v", "holder_list": "vlist"}[s["wiring"]]
-            call = f"{s['name']}.decode" if s["wiring"] == "codec" else f"{s['name']}.from_dict"
-            script.append({"op": "decode", "call": call, "wrap": wrap, "input": inp})
+            ops.append(("decode", si, keys, list(present)))
+            script.append(decode_step(s, inp))
             op_of_step.append(len(ops) - 1)
     return Hist(kind, style, sites, ops, script, op_of_step,
                 {"kind": kind, "style": style, "unique": None, "classes": classes, "stream": "fixed"})
@@ -810,6 +867,30 @@ def fixed_histories() -> list[Hist]:
             if decl == "plain":      # other ==-equal spellings of the same tags in the input
                 ev += [("decode", skey, 0, [], 1), ("decode", skey, 0, [], 2), ("decode", skey, 3, [], 1), ("decode", skey, 3, [], 2)]
         out.append(build_fixed("field", sp, cl, st, ev))
+    # two levels of class-level dispatchers looking at DIFFERENT keys (outer "type", inner "kind"): valid outer tag with
+    # the inner key absent / present / unknown, through the Config root, a codec and a holder; stale and fresh registries
+    cfg_in = {"field": True, "sub": True, "sup": False, "tagger": False, "fid": 1}
+    cl = [dict(config=cfg), dict(parents=[0], own_tag=1, config=cfg_in, decl="plain"), dict(parents=[1], own_tags={1: 2}, decl="plain"),
+          dict(parents=[1], own_tags={1: 3, 0: 4}, decl="plain"), dict(parents=[0], own_tag=5, decl="plain")]
+    st = [dict(wiring="codec", bases=[0]), dict(wiring="holder", bases=[0], shape="a_opt")]
+    ev = [("define", 0), ("define", 1), ("site", 0), ("site", 1), ("define", 2)]
+    for skey in (("config", 0), ("site", 0), ("site", 1)):
+        ev += [("decode", skey, 1, []), ("decode", skey, 1, [], 0, {1: 2}), ("decode", skey, 1, [], 0, {1: 9}),
+               ("decode", skey, None, [], 0, {1: 2}), ("decode", skey, 8, [])]
+    ev += [("define", 3), ("define", 4)]
+    for skey in (("config", 0), ("site", 0), ("site", 1), ("config", 1)):
+        ev += [("decode", skey, 1, []), ("decode", skey, 1, [], 0, {1: 3}), ("decode", skey, 4, [], 0, {1: 3}),
+               ("decode", skey, 5, []), ("decode", skey, None, [], 0, {1: 3})]
+    out.append(build_fixed("field", "str", cl, st, ev))
+    # every place the Discriminator annotation can sit (around / inside Optional, List, Dict, Tuple), holder and codec:
+    # late subclass, unknown tag, absent key
+    cl = [dict(), dict(parents=[0], own_tag=1), dict(parents=[1], own_tag=2, decl="classvar")]
+    st = [dict(wiring=w, bases=[0], shape=sh) for sh in SHAPES for w in ("holder", "codec")]
+    ev = [("define", 0), ("define", 1)] + [("site", k) for k in range(len(st))]
+    ev += [("decode", ("site", k), 1, []) for k in range(len(st))] + [("define", 2)]
+    for k in range(len(st)):
+        ev += [("decode", ("site", k), 2, []), ("decode", ("site", k), 7, []), ("decode", ("site", k), None, [])]
+    out.append(build_fixed("field", "mixed", cl, st, ev))
     # nested class-level dispatchers: own registry per declaring class (and per codec), class-level form never yields itself
     cl = [dict(config=cfg), dict(parents=[0], own_tag=1, config=cfg, decl="plain"), dict(parents=[1], own_tag=2, decl="plain"),
           dict(parents=[0], own_tag=3, decl="plain"), dict(parents=[1], own_tag=4, decl="plain")]
@@ -863,8 +944,8 @@ def check_site_ok(ctx: vlib.Ctx):
 
 
 # ---------------------------------------------------------------------------
-# several discriminated fields with different variant_tagger_fn in ONE holder
-# (region of known finding C12/tagger-fn-name-collision; reported by the C17 engineer)
+# several discriminated fields with different variant_tagger_fn in ONE holder: every field must be tagged by its own
+# function (was known finding C12/tagger-fn-name-collision until fix 79143aa of /repo; now an ordinary positive case)
 # ---------------------------------------------------------------------------
 
 def probe_two_taggers(ctx: vlib.Ctx, n: int):
@@ -911,11 +992,9 @@ def probe_two_taggers(ctx: vlib.Ctx, n: int):
                 ctx.hist("wiring", "holder-multi-tagger")
                 if obs != exp:
                     step = {"op": "decode", "call": "HD.from_dict", "wrap": None, "input": arg[f"f{i}"], "arg": arg, "pick": f"f{i}"}
-                    # the finding: a later field is tagged with the FIRST field's function, so its own tag is unknown there
-                    kf = (not same) and i >= 1 and obs == ("notfound",)
                     ctx.fail(f"HD.from_dict({arg}).f{i} -> {fmt(obs)}, expected {fmt(exp)} (field {i} of {k}, own variant_tagger_fn)",
                              {"entry": "history", "script": script + [step], "failing_step": 2, "expected": fmt(exp), "observed": fmt(obs)},
-                             {"kind": "tagger-fn-name-collision" if kf else "field-dispatch", "wiring": "holder-multi-tagger"})
+                             {"kind": "field-dispatch", "wiring": "holder-multi-tagger"})
                 if bad_i is not None:
                     break
         finally:
@@ -927,7 +1006,7 @@ def probe_two_taggers(ctx: vlib.Ctx, n: int):
 # ---------------------------------------------------------------------------
 
 CODE_THEOREMS = ["C12_code_variants"]
-THEOREMS = ["C12_registry_invariant", "C12_registry", "C12_missing_tag", "C12_present_key_not_missing", "C12_history_independent",
+THEOREMS = ["C12_registry_invariant", "C12_registry", "C12_missing_tag", "C12_present_keys_not_missing", "C12_nested_missing_key", "C12_history_independent",
             "C12_eligible_exact", "C12_nofield", "C12_trace_event", "C12_tag_unique_decidable",
             "C12_nonunique_order_dependent", "C12_class_level_self_excluded",
             "C12_nofield_inherited_unpacker_refuted"]
@@ -948,7 +1027,10 @@ def run(ctx: vlib.Ctx):
         "'0', 'False', ' ' ...: ==-equal spellings are ONE abstract tag and are mixed between class attribute, tagger result "
         "and input; a key present with a falsy value is distinct from an absent key), "
         "variant_tagger_fn (bare or list result), sites = Config root (optionally called with dialect=) / Annotated holder "
-        "field (direct or List[...]) / BasicDecoder over one class or a Union, include_subtypes x include_supertypes, field "
+        "field / BasicDecoder over one class or a Union, the Discriminator annotation inside or around Optional/List/Dict/"
+        "Tuple (10 shapes, holder and codec), 1-2 discriminator key names per history (dispatchers of one hierarchy look at "
+        "different keys, a class carries a tag per key, each key independently present or absent in the input), "
+        "include_subtypes x include_supertypes, field "
         "and no-field mode; decodes of present, future (class defined later), unknown and missing tags interleaved with "
         "definitions and site creation; 25% of the histories have duplicate tags (correspondence only, oracle silent). "
         "Plus 7 fixed edge histories and a stream inside the region of the known finding. distinct = (kind, wiring, sub, "
@@ -956,14 +1038,14 @@ def run(ctx: vlib.Ctx):
     ctx.assumptions += [
         "tag uniqueness is required only for the decoded tag among the classes defined before the event (tag_unique); "
         "without it the result depends on the history (C12_nonunique_order_dependent, reproduced on /repo each run)",
-        "(X1) the oracle is silent when the class carrying the tag (no-field: any eligible class) declares its own class-level "
-        "discriminator (plain_carriers / no_nested; such a class is a dispatcher over its strict subclasses - README 'class "
-        "level discriminator', C12_class_level_self_excluded); such histories still take part in the correspondence",
+        "(X1) field mode: when the class carrying the tag declares its own class-level discriminator the oracle applies the "
+        "property to that inner dispatcher on the same input (settings read from the real class); no-field mode: the oracle is "
+        "silent when an eligible class declares its own class-level discriminator (no_nested); the theorems keep the hypotheses "
+        "plain_carriers / no_nested, the nested behaviour itself is in the model and in the correspondence",
         "(X2) no-field mode through an Annotated holder over plain (non-mixin) dataclasses is generated only in the "
         "known-finding stream (finding C12/nofield-inherited-unpacker)",
-        "(X3) a holder with several discriminated fields that use DIFFERENT variant_tagger_fn objects is generated only in the "
-        "probe of known finding C12/tagger-fn-name-collision; the model has one tagger per site, which is what the code does "
-        "for codecs, Config roots and single-field holders",
+        "holders with several discriminated fields (each with its own variant_tagger_fn) are checked by the oracle only "
+        "(probe_two_taggers); the model has one registry and one tagger per site",
         "inputs are mappings with hashable tags (non-mapping / unhashable inputs belong to C05)",
     ]
     ctx.trusted += [
@@ -1053,8 +1135,9 @@ def run(ctx: vlib.Ctx):
             s = h.sites[op[1]]
             o = observed[oi]
             late = n_def_after.get(op[1], 0) > 0
-            ctx.count((h.kind, s["wiring"], s["sub"], s["sup"], s["tagger"], o[0] if o else "-", late, len(s["bases"])))
+            ctx.count((h.kind, s["wiring"], s["sub"], s["sup"], s["tagger"], o[0] if o else "-", late, len(s["bases"]), s.get("shape", "-"), s.get("fid", 0) if h.meta.get("n_keys", 1) > 1 else "-"))
             ctx.hist("wiring", s["wiring"] + ("+dialects" if s.get("dialects") else ""))
+            ctx.hist("annotation_shape", s.get("shape", "-") if s["wiring"] != "config" else "config")
             ctx.hist("outcome", o[0] if o and o[0] != "inst" else "instance")
             ctx.hist("decode_after_late_definition", str(late))
             first_decode_seen.add(op[1])
@@ -1063,10 +1146,12 @@ def run(ctx: vlib.Ctx):
         if h.kind == "field":
             for st in h.script:
                 if st["op"] == "decode":
-                    if FIELD not in st["input"]:
+                    present_keys = [f for f in FIELDS if f in st["input"]]
+                    ctx.hist("input_discriminator_keys", str(len(present_keys)) + " of " + str(h.meta.get("n_keys", 1)))
+                    if not present_keys:
                         kind_v = "key absent"
                     else:
-                        v = st["input"][FIELD]
+                        v = st["input"][present_keys[0]]
                         kind_v = ("None" if v is None else "bool" if isinstance(v, bool) else
                                   "falsy " + type(v).__name__ if not v else type(v).__name__)
                     ctx.hist("input_tag_value", kind_v)
